@@ -126,14 +126,17 @@ def _work(args):
         case = decode_case_line(line)
         r = ve._rng(seed, line)
         obs = [run_one(case, r, seed)]
-        if opts.get("strip") and case["allowed"] == ["accept"]:
+        if opts.get("strip") and (case["allowed"] == ["accept"] or obs[0]["observed"] == "accept"):      # every ACCEPTED envelope is presented again, stripped to its valid authorized signatures
             obs.append(run_stripped(case, r, seed))
         for o in obs:
             res["n"] += 1
             res["accepts"] += o["observed"] == "accept"
             if o.get("unjudged"):
                 continue
-            if lib.family(o["observed"]) not in o["allowed"] or o.get("mutated"):
+            if o["variant"] == "stripped" and obs[0]["observed"] == "accept" and o["observed"] != "accept":
+                o["strip_mismatch"] = True      # accepted, but not when reduced to its valid signatures by authorized keys: something else made it pass
+                res["bad"].append(o)
+            elif lib.family(o["observed"]) not in o["allowed"] or o.get("mutated"):
                 res["bad"].append(o)
         trivial = all(v[0] == "absent" for v in case["e"]) and case["alt"][0] == "absent" and case["junk"][0] == "absent"
         res["hashes"].append((hashlib.sha256(line.encode()).hexdigest()[:16], not trivial))
@@ -164,6 +167,12 @@ def replay(run, tlc_result, opts=None, procs=16):
 
 
 def coarse_sig(o):
+    if o.get("strip_mismatch"):
+        return _coarse_sig({**o, "strip_mismatch": False}) + " - although the envelope as presented was ACCEPTED"
+    return _coarse_sig(o)
+
+
+def _coarse_sig(o):
     c = o["case"]
     bits = [f"role={c['role']}", f"untrusted={c['ukind']}" + (":" + c["utype"] if c["ukind"] != "plain" else ""),
             f"gpg={c['gpg']}"]
